@@ -17,7 +17,7 @@ REV = {"lt": "gt", "gt": "lt", "eq": "eq", None: None}
 
 
 def plan(env, tier, seed):
-    n = 6 if tier == "quick" else 60
+    n = 10 if tier == "quick" else 400
     tasks = cl.split_tasks(env, lambda ty, e: e["kind"] == "ref")
     for t in tasks:
         t.update({"n": n, "seed": seed})
